@@ -144,7 +144,7 @@ class C12(PropBase):
         if kind in ("random",):
             opts["p_fault"] = 0.1
         txns = self.gen_txns(rng, pool, comms, tag_pool, opts)
-        base = {"permit_empty": permit_empty}
+        base = {"permit_empty": permit_empty, "omit_pe": rng.random() < 0.5}
 
         def declare_all():
             a, c, t = used_names(txns)
@@ -272,8 +272,11 @@ class C12(PropBase):
                 ents.insert(rng.randrange(len(ents) + 1), [rng.choice(comms), x, "3"])
             if rng.random() < 0.06:
                 ents = []                             # empty price file: an error in every mode
-            lookup = rng.choice(["last-price", "txn-time", "last-price", "last-price", "none"])
+            lookup = rng.choice(["last-price", "txn-time", "last-price", "last-price", "none", "given-time", "given-time"])
             extra["price"] = {"entries": ents, "db": price_text(ents), "lookup": lookup}
+            if lookup == "given-time":
+                # the chart applies to every entry of the price file, also to those the given time leaves out of the lookup
+                extra["price"]["before"] = rng.choice(["2024-01-01T00:00:00Z", "2024-01-02T12:00:00Z", "2023-06-01", "2024-01-05", "2025-01-01"])
             cs = sorted(set(cs) | {rc})
             if mode == "mixed" and rng.random() < 0.5:
                 cs = sorted(set(cs) | {e[0] for e in ents} | {e[1] for e in ents})
@@ -328,6 +331,8 @@ class C12(PropBase):
         runs = []
         for label in LABELS:
             cfg = {"strict": label == "S", "permit_empty": base["permit_empty"]}
+            if not base["permit_empty"] and base.get("omit_pe"):
+                del cfg["permit_empty"]       # the key is optional; absent means false, whatever names the chart lists
             # the effective mode may come from the file or from the command-line overlap (`--strict.mode`):
             # charts, synthetic parents and every later check must follow the EFFECTIVE flag
             via = rng.random()
